@@ -89,7 +89,8 @@ class Ctx:
         # and deadlock properties
         shared = [(k, mod) for k, mod, users in (("ORACLE", "Oracle", SC_ORACLE_USERS), ("REFINE", "Refine", REFINE_USERS),
                                                  ("DEADLOCK", "Deadlock", {"C05"}),
-                                                 ("REFINE2", "Refine2", {"C08", "C09"}))
+                                                 ("REFINE2", "Refine2", {"C08", "C09"}),
+                                                 ("RACE", "Race", {"C04"}))
                   if pid in users]
         table = json.load(open(os.path.join(lvlib.VERIF, "checks", "theorems.json")))
         theorems = list(theorems)
